@@ -32,7 +32,7 @@ vlib.standard_check({
     "harness": "c19",
     # harness args after the seed: <ncases> <nsteps> <mode> <reps>; mode 0 = BEFORE-phase clock waits confined to one clock pin
     # (model replay + property), mode 1 = unrestricted (property evaluated on the implementation log only)
-    "streams": {"quick": [[500, 40, 0, 2], [150, 40, 1, 1]],
+    "streams": {"quick": [[2000, 40, 0, 2], [600, 40, 1, 1]],
                 "thorough": [[12000, 60, 0, 3], [3000, 60, 1, 2], [300, 400, 0, 2]]},
     "search": [[3000, 50, 0, 2], [1500, 50, 1, 1]],
     "signature": signature,
